@@ -7,3 +7,5 @@ __attribute__((weak)) void soxr_verif_set_lock(soxr_verif_lock_t * l, char const
 { (void)n; while (__atomic_exchange_n(&l->held, 1, __ATOMIC_ACQUIRE)) while (__atomic_load_n(&l->held, __ATOMIC_RELAXED)) ; }
 __attribute__((weak)) void soxr_verif_unset_lock(soxr_verif_lock_t * l, char const * n) { (void)n; __atomic_store_n(&l->held, 0, __ATOMIC_RELEASE); }
 __attribute__((weak)) void soxr_verif_yield(char const * tag) { (void)tag; }
+/* first dereference of a transform's tables (fft4g.c): nothing to do unless a harness wants to see it (C17 scheduler) */
+__attribute__((weak)) void soxr_verif_table_use(int const * ip, void const * w) { (void)ip; (void)w; }
